@@ -23,9 +23,12 @@ IsRightPre(i) == i.t = "pre" /\ i.who = 1
 
 LockKinds == {"htlc_sha", "htlc_shake", "htlc2_sha", "htlc2_shake", "ptlc", "ptlc_tweak"}
 WitKinds == {"htlc", "htlc2", "ptlc", "ptlc_refund"}
-Times == {"before", "at", "after", "future"}       \* deadline - 1, deadline, deadline + 1, far future beyond the clock slack
-\* the timestamp condition of the refund branch: t >= deadline and within slack
-TimeOK(tm) == tm \in {"at", "after"}
+\* deadline - 1, deadline, deadline + 1 (verifier clock = t); "future": t past the deadline and ahead of the verifier clock
+\* by the slack threshold or more (the enumerated case: exactly the threshold); "slackm1": t = deadline, ahead of the clock
+\* by one second less than the threshold
+Times == {"before", "at", "after", "future", "slackm1"}
+\* the timestamp condition of the refund branch: t >= deadline and ahead of the clock by less than the slack threshold
+TimeOK(tm) == tm \in {"at", "after", "slackm1"}
 
 Cases(z) == [lock : LockKinds, wit : WitKinds, signer : {1, 2, 3, 11, 12}, pre : {"right", "wrong"}, tm : Times]
 
